@@ -10,17 +10,18 @@ SHA-256 itself is trusted to be injective on the strings that occur.
 namespace StepupModel.Props.C13
 open StepupModel.P.Hash StepupModel.P.Like
 
-/-- Well-formedness exactly as the property quantifies it: NUL-free label, paths, names and
-values; mode and size below 2^64 (`to_bytes(8)` raises otherwise); digests of 32 bytes or the
-unknown marker.  No further hypothesis: since the two `fix:` commits (F1, F2) the encoding is
-uniquely decodable on all of these. -/
+/-- Well-formedness as the property quantifies it (NUL-free label, paths, names and values; mode
+and size below 2^64, `to_bytes(8)` raises otherwise; digests of 32 bytes or the unknown marker)
+*plus* one extra hypothesis inside `WFEnv`: no tracked variable is called `__env_overrides__`
+(finding F1, a known finding).  The former hypothesis on digests (F2) is gone since the `fix:`
+commit that hashes an unknown digest as a missing word. -/
 def WFCfg (c : InpCfg) : Prop :=
   NulFree c.label ∧ (∀ f ∈ c.files, WFFile f) ∧ (∀ e ∈ c.envs, WFEnv e) ∧ (∀ e ∈ c.ovr, WFOvr e)
 
 theorem kwShell_nf : NulFree kwShell := by intro x hx; simp [kwShell] at hx; omega
 
 /-- Equal input streams of ordered ingredient lists imply equal ingredient lists. -/
-theorem inp_ordered_injective (c1 c2 : InpCfg) (h1 : WFCfg c1) (h2 : WFCfg c2)
+theorem inp_ordered_injective_partial (c1 c2 : InpCfg) (h1 : WFCfg c1) (h2 : WFCfg c2)
     (h : inpStreamOrdered c1 = inpStreamOrdered c2) : c1 = c2 := by
   obtain ⟨l1, s1, f1, e1, o1⟩ := c1
   obtain ⟨l2, s2, f2, e2, o2⟩ := c2
@@ -37,7 +38,7 @@ theorem inp_ordered_injective (c1 c2 : InpCfg) (h1 : WFCfg c1) (h2 : WFCfg c2)
     refine Or.inr ⟨kwEnv, _, rfl, kwEnv_nulFree, Or.inr ?_⟩
     cases es with
     | nil => exact ⟨_, Or.inl rfl⟩
-    | cons e es => simp only [encEnvs, List.append_assoc, encEnv_append]; exact ⟨_, Or.inr rfl⟩
+    | cons e es => simp only [encEnvs, List.append_assoc, encEnv_append]; exact ⟨_, Or.inl rfl⟩
   obtain ⟨hf, h⟩ := files_inj f1 f2 _ _ hf1 hf2 (hterm e1 o1) (hterm e2 o2) h
   simp only [List.cons.injEq, true_and, List.append_cancel_left_eq] at h
   have hterm2 : ∀ (os : List (Bytes × Bytes)), EnvTerm (0 :: 1 :: (kwOvr ++ encOvrs os)) := by
@@ -60,11 +61,12 @@ theorem wf_canon {c : InpCfg} (h : WFCfg c) : WFCfg (canon c) := by
   · intro f hf; exact h3 f (by simpa [canon, sortEnvs] using hf)
   · intro f hf; exact h4 f (by simpa [canon, sortOvrs] using hf)
 
-/-- **Injectivity of the input digest's preimage**: two well-formed configurations with the same
-stream have the same label, shell flag and the same three finite maps. -/
-theorem inp_stream_injective (c1 c2 : InpCfg) (h1 : WFCfg c1) (h2 : WFCfg c2)
+/-- **Injectivity of the input digest's preimage** (partial: `WFCfg` excludes tracked variables
+named `__env_overrides__`): two well-formed configurations with the same stream have the same
+label, shell flag and the same three finite maps. -/
+theorem inp_stream_injective_partial (c1 c2 : InpCfg) (h1 : WFCfg c1) (h2 : WFCfg c2)
     (h : inpStream c1 = inpStream c2) : canon c1 = canon c2 :=
-  inp_ordered_injective _ _ (wf_canon h1) (wf_canon h2) h
+  inp_ordered_injective_partial _ _ (wf_canon h1) (wf_canon h2) h
 
 /-- Same for the output digest. -/
 theorem out_stream_injective (fs gs : List FileE) (h1 : ∀ f ∈ fs, WFFile f)
@@ -125,16 +127,40 @@ theorem canon_eq_perm (c1 c2 : InpCfg) (h : canon c1 = canon c2) :
   · exact (List.mergeSort_perm _ _).symm.trans (by rw [sortEnvs] at he; rw [he]; exact List.mergeSort_perm _ _)
   · exact (List.mergeSort_perm _ _).symm.trans (by rw [sortOvrs] at ho; rw [ho]; exact List.mergeSort_perm _ _)
 
-/-! ## The former collisions (F1, F2) are separated by the repaired encoding -/
+/-! ## The full statement for inputs is false: F1 -/
+
+/-- Well-formedness exactly as the property quantifies it, without the extra hypothesis. -/
+def WFBasic (c : InpCfg) : Prop :=
+  NulFree c.label ∧ (∀ f ∈ c.files, WFFile f) ∧
+  (∀ e ∈ c.envs, NulFree e.1 ∧ ∀ w, e.2 = some w → NulFree w) ∧ (∀ e ∈ c.ovr, WFOvr e)
+
+/-- The full-strength statement of input-digest soundness. -/
+def InpDigestSoundFull : Prop :=
+  ∀ c1 c2, WFBasic c1 → WFBasic c2 → inpStream c1 = inpStream c2 → canon c1 = canon c2
 
 def f1a : InpCfg := ⟨[99], false, [], [(kwOvr, some [88])], []⟩
 def f1b : InpCfg := ⟨[99], false, [], [], [([88], kwOvr)]⟩
 
-/-- F1 (fixed): a tracked variable named `__env_overrides__` with value `X` versus an override
-`X = "__env_overrides__"` now have different streams. -/
-theorem inp_keyword_collision_fixed : inpStream f1a ≠ inpStream f1b := by
-  simp [inpStream, canon, f1a, f1b, sortFiles, sortEnvs, sortOvrs, inpStreamOrdered, encFiles,
-    encEnvs, encOvrs, encEnv, encOvr, wStr, wNone]
+/-- F1 (known finding): a tracked variable named `__env_overrides__` with value `X`, versus an
+override `X = "__env_overrides__"`: different configurations, same stream. -/
+theorem inp_keyword_collision_negation : ¬ InpDigestSoundFull := by
+  intro h
+  have hnf : NulFree kwOvr := kwOvr_nulFree
+  have w1 : WFBasic f1a := by
+    refine ⟨by intro x hx; simp [f1a] at hx; omega, by simp [f1a], ?_, by simp [f1a]⟩
+    intro e he; simp [f1a] at he; subst he
+    exact ⟨hnf, by intro w hw; simp at hw; subst hw; intro x hx; simp at hx; omega⟩
+  have w2 : WFBasic f1b := by
+    refine ⟨by intro x hx; simp [f1b] at hx; omega, by simp [f1b], by simp [f1b], ?_⟩
+    intro e he; simp [f1b] at he; subst he
+    exact ⟨by intro x hx; simp at hx; omega, hnf⟩
+  have hs : inpStream f1a = inpStream f1b := by
+    simp [inpStream, canon, f1a, f1b, sortFiles, sortEnvs, sortOvrs, inpStreamOrdered, encFiles,
+      encEnvs, encOvrs, encEnv, encOvr, wStr]
+  have := h f1a f1b w1 w2 hs
+  simp [canon, f1a, f1b, sortFiles, sortEnvs, sortOvrs] at this
+
+/-! ## The former output collision (F2) is separated by the repaired encoding -/
 
 def f2digest : Bytes :=
   [117, 0, 1, 98, 99, 100, 101, 102, 103, 0, 0, 0, 0, 0, 0, 0, 0, 0, 0, 0, 0, 0, 0, 0, 0, 0, 0, 0, 0, 0, 0, 117]
@@ -192,8 +218,9 @@ example : WFCfg ⟨[99, 112], true, [⟨[97, 47, 98], 420, 3, unknownDigest⟩],
     exact ⟨by intro x hx; simp at hx; omega, by decide, by decide, Or.inl rfl⟩
   · intro e he; simp at he
     rcases he with rfl | rfl
-    · exact ⟨by intro x hx; simp at hx; omega, by simp⟩
-    · exact ⟨by intro x hx; simp at hx; omega, by intro w hw; simp at hw; subst hw; intro x hx; simp at hx; omega⟩
+    · exact ⟨by intro x hx; simp at hx; omega, by simp, by decide⟩
+    · exact ⟨by intro x hx; simp at hx; omega, by intro w hw; simp at hw; subst hw; intro x hx; simp at hx; omega,
+        by decide⟩
   · intro e he; simp at he; subst he
     exact ⟨by intro x hx; simp at hx; omega, by intro x hx; simp at hx; omega⟩
 
